@@ -29,6 +29,16 @@ def jobs(tier, seed):
                                            ["source found", "connect failed", "getsockname failed", "socket failed"]),
                       bound="one find_src_addr (RFC 6724 source probe of ares_sortaddrinfo) for an %s destination with socket(), "
                             "connect() (incl. EINTR retry / EINPROGRESS) and getsockname() each failing or not" % famname))
+    J.append(dict(name="default_asocket", harness="default_funcs.c", defines=["-DENTRY=0"],
+                  real=["src/lib/str/ares_str.c", "src/lib/ares_library_init.c"], support=["vp_rt.c", "valloc.c", "memloops.c", "lock_ghost.c"],
+                  unwind=10, witnesses=["end", "socket ready", "set-up failed after socket()", "socket() failed"],
+                  bound="ONE default_asocket (AF_INET/AF_INET6, UDP/TCP) with socket(), each fcntl() and each setsockopt() "
+                        "failing or not; kernel-descriptor ledger"))
+    for n in (0, 1, 4, 8):
+        J.append(dict(name="default_asetsockopt_len%d" % n, harness="default_funcs.c", defines=["-DENTRY=1", "-DVALSIZE=%d" % n],
+                      real=["src/lib/str/ares_str.c", "src/lib/ares_library_init.c"], support=["vp_rt.c", "valloc.c", "memloops.c", "lock_ghost.c"],
+                      unwind=12, witnesses=["end"] + (["accepted"] if n in (4, 8) else []),
+                      bound="ONE default_asetsockopt, option code 0..5, value = exact-size object of %d arbitrary bytes (no terminator)" % n))
     shapes = [("", None), ("u", None), ("t", None), ("ut", None), ("u", "t"), ("ut", "u")] + ([("uut", "ut")] if tier != "quick" else [])
     for s0, s1 in shapes:
         J.append(dict(name="fds_getsock_%s_%s" % (s0 or "none", s1 if s1 is not None else "x"), harness="fds.c",
